@@ -26,6 +26,11 @@ CHECKS['C16'] = dict(
    text='Generated-input search with a specification-predicate oracle. Complete grid: constraint c x threshold x (t - c in -2..2) x ((t - now) - threshold in -2..2) x fractional / integral clock x minimal / padded / 9-byte encodings for the four instructions through run_script; ts x t x threshold grid for the three lock builders with op_verify on and off through run_auth_scripts; Hypothesis quadruples up to 63 bits concentrated on the boundaries. One open known finding (before-lock beyond slack) is excluded by its specific signature.',
    note='now = int(clock); clocks non-negative; fractional clocks only below 2^32 (a double cannot hold a larger value with a fraction). CHECK_EPOCH with a negative threshold is a documented error and not compared.',
    design='3/C16')
+CHECKS['C20'] = dict(
+   technique='complete enumeration of NOP code x count x depth against the documented semantics; differential old VM vs upgraded VM (add_soft_fork) on Hypothesis-generated scripts; compile/decompile reachability matrix over names, aliases and nesting contexts',
+   text='Part 1 is exhaustive over all 164 unassigned codes x 256 count bytes x 6 stack depths (run_script outcome, stack, cache, tape position) plus compile / decompile naming for every code x count. Part 2 is generated-input search: fork ops following the readme contract installed at free codes; every generated script (fork op at any nesting depth, never inside TRY) must satisfy upgraded-authorises => old-authorises and leave identical state when the fork op did not raise; every name / alias spelling in every block context must compile on the upgraded VM to the bytes of the NOPn spelling and be accepted wherever NOPn is; decompile must name the op and round-trip.',
+   note='Both VMs live in one worker process: registries are snapshotted and restored in place between configurations. The fork-op family is the readme contract (signed count, pull that many, raise or not); ops that do other things are outside the property.',
+   design='3/C20')
 NOT_YET = {}
 for i in range(1, 21):
     pid = 'C%02d' % i
